@@ -168,6 +168,72 @@ theorem readAll_prefix (crc : Bytes → UInt32) (log : List Bytes) (S : Bytes)
       ∧ (∀ n, n ≤ log.length → (frames crc (log.take n)).length ≤ S.length → n ≤ m) :=
   readAllF_prefix crc log S (S.length + 1) hsmall hpre (by omega)
 
+/-! ### corrupted records (CRC mismatch path) -/
+
+theorem readBytes_rejects (crc : Bytes → UInt32) (B : Bytes) (h : CrcRejects crc B) :
+    ∃ e, readBytes crc B = .error e ∧ (B ≠ [] → e ≠ .eof) := by
+  unfold readBytes
+  split
+  · rename_i h0
+    exact ⟨.eof, rfl, fun hne => absurd (List.eq_nil_of_length_eq_zero h0) hne⟩
+  · split
+    · exact ⟨.unexpectedEOF, rfl, fun _ => by simp⟩
+    · simp only
+      split
+      · exact ⟨.unexpectedEOF, rfl, fun _ => by simp⟩
+      · split
+        · exact ⟨.corrupted, rfl, fun _ => by simp⟩
+        · rename_i hcrc
+          exact absurd h (by simpa [CrcRejects] using hcrc)
+
+theorem readAllF_frames_append (crc : Bytes → UInt32) (B : Bytes) (hB : CrcRejects crc B) :
+    ∀ (A : List Bytes) (fuel : Nat), (∀ p ∈ A, p.length + 8 < 2 ^ 32) →
+      (frames crc A ++ B).length < fuel →
+      (readAllF crc fuel (frames crc A ++ B)).1 = A
+      ∧ (readAllF crc fuel (frames crc A ++ B)).2.1 = (frames crc A).length
+      ∧ (B ≠ [] → (readAllF crc fuel (frames crc A ++ B)).2.2 ≠ .eof) := by
+  intro A
+  induction A with
+  | nil =>
+    intro fuel _ hf
+    obtain ⟨f, rfl⟩ : ∃ f, fuel = f + 1 := ⟨fuel - 1, by omega⟩
+    obtain ⟨e, he, hne⟩ := readBytes_rejects crc B hB
+    simp only [frames, List.nil_append, readAllF, he]
+    exact ⟨trivial, rfl, hne⟩
+  | cons p rest ih =>
+    intro fuel hsmall hf
+    obtain ⟨f, rfl⟩ : ∃ f, fuel = f + 1 := ⟨fuel - 1, by omega⟩
+    have hp : p.length + 8 < 2 ^ 32 := hsmall p (by simp)
+    have hFl := frame_length crc p
+    simp only [frames, List.append_assoc, List.length_append] at hf ⊢
+    have hrb := readBytes_frame crc p (frames crc rest ++ B) hp
+    obtain ⟨h1, h2, h3⟩ := ih f (fun q hq => hsmall q (by simp [hq])) (by simp only [List.length_append]; omega)
+    simp only [readAllF, hrb, h1, h2, headerLen, hFl]
+    refine ⟨trivial, ?_, h3⟩
+    rw [Nat.mod_eq_of_lt (by omega)]
+
+theorem readAll_frames_append (crc : Bytes → UInt32) (A : List Bytes) (B : Bytes)
+    (hA : ∀ p ∈ A, p.length + 8 < 2 ^ 32) (hB : CrcRejects crc B) :
+    (readAll crc (frames crc A ++ B)).1 = A
+    ∧ (readAll crc (frames crc A ++ B)).2.1 = (frames crc A).length
+    ∧ (B ≠ [] → (readAll crc (frames crc A ++ B)).2.2 ≠ .eof) :=
+  readAllF_frames_append crc B hB A _ hA (by omega)
+
+/-- an altered frame (payload and/or stored checksum changed, length field consistent with the payload)
+    whose alteration the checksum detects is rejected -/
+theorem altered_frame_rejects (crc : Bytes → UInt32) (c : Nat) (p' T : Bytes) (hp : p'.length + 8 < 2 ^ 32)
+    (hdet : (crc p').toNat ≠ c % 2 ^ 32) : CrcRejects crc (be32 c ++ be32 p'.length ++ p' ++ T) := by
+  have h4a : (be32 c).length = 4 := rfl
+  have h4b : (be32 p'.length).length = 4 := rfl
+  have hs : be32 c ++ be32 p'.length ++ p' ++ T = be32 c ++ (be32 p'.length ++ (p' ++ T)) := by simp
+  unfold CrcRejects
+  rw [hs, List.take_left' h4a, beNat_be32, List.drop_left' h4a, List.take_left' h4b, beNat_be32]
+  have h8 : (be32 c ++ (be32 p'.length ++ (p' ++ T))).drop headerLen = p' ++ T := by
+    have : headerLen = 4 + 4 := rfl
+    rw [this, ← List.drop_drop, List.drop_left' h4a, List.drop_left' h4b]
+  rw [h8, Nat.mod_eq_of_lt (by omega), List.take_left' rfl]
+  exact hdet
+
 /-! ### CloseAndRepair -/
 
 theorem repairLoop_flatten : ∀ (fs : List Bytes) (v : Nat), v ≤ fs.flatten.length →
@@ -562,6 +628,225 @@ theorem housekeep_inv (crc : Bytes → UInt32) (w : Writer) (g : Ghost) (h : Inv
   simp only [stepGhost, hjeq]
   exact this
 
+theorem take_prefix_take {α : Type} (l : List α) (a b : Nat) (h : a ≤ b) : l.take a <+: l.take b := by
+  have : l.take a = (l.take b).take a := by rw [List.take_take, Nat.min_eq_left h]
+  rw [this]; exact List.take_prefix _ _
+
+/-! ### crash points inside Shift and inside CloseAndRepair -/
+
+/-- what a recovery needs from the disk it finds (relative to the bookkeeping `log`, `n`) -/
+structure Pre (crc : Bytes → UInt32) (d : Disk) (log : List Bytes) (n : Nat) : Prop where
+  ne : d.files ≠ []
+  pre : d.files.flatten <+: frames crc log
+  dur : (frames crc (log.take n)).length ≤ d.files.flatten.length
+  whole : ∀ s ∈ d.files.dropLast, Whole crc s
+
+theorem frames_take_mono (crc : Bytes → UInt32) (log : List Bytes) (a b : Nat) (h : a ≤ b) :
+    (frames crc (log.take a)).length ≤ (frames crc (log.take b)).length := by
+  obtain ⟨t, ht⟩ := take_prefix_take log a b h
+  rw [← ht, frames_append]; simp
+
+theorem Pre.weaken {crc : Bytes → UInt32} {d : Disk} {log : List Bytes} {n n' : Nat}
+    (h : Pre crc d log n') (hn : n ≤ n') : Pre crc d log n :=
+  ⟨h.ne, h.pre, Nat.le_trans (frames_take_mono crc log n n' hn) h.dur, h.whole⟩
+
+theorem crash_pre (crc : Bytes → UInt32) (w : Writer) (g : Ghost) (k : Nat) (h : Inv crc w g) :
+    Pre crc (w.crash k) g.log g.nsynced := by
+  have hlen : w.synced ≤ (w.tail ++ w.buf).length := by
+    have := h.syncedLe; simp; omega
+  constructor
+  · simp [Writer.crash]
+  · simp only [Writer.crash, List.flatten_append, List.flatten_cons, List.flatten_nil, List.append_nil]
+    rw [← h.stream]
+    exact (List.prefix_append_right_inj _).mpr (List.take_prefix _ _)
+  · have := h.durable
+    simp only [Writer.crash, List.flatten_append, List.flatten_cons, List.flatten_nil, List.append_nil,
+      List.length_append, List.length_take]
+    simp only [List.length_append] at hlen
+    omega
+  · intro s hs
+    simp only [Writer.crash, List.dropLast_concat] at hs
+    exact h.whole s hs
+
+theorem crashAt_pre (crc : Bytes → UInt32) (w : Writer) (g : Ghost) (p : CrashPoint) (h : Inv crc w g) :
+    Pre crc (w.crashAt p) g.log g.nsynced := by
+  cases p with
+  | appending k => exact crash_pre crc w g k h
+  | inShift j k =>
+    simp only [Writer.crashAt, Writer.crashInShift]
+    split
+    · exact crash_pre crc w g k h
+    · split
+      · exact (crash_pre crc w.sync _ 0 (sync_inv crc w g h)).weaken h.nLe
+      · exact (crash_pre crc w.shift _ 0 (shift_inv crc w g h)).weaken h.nLe
+
+theorem flatten_prefix {α : Type} (a b : List (List α)) (h : a <+: b) : a.flatten <+: b.flatten := by
+  obtain ⟨t, rfl⟩ := h
+  simp
+
+theorem dropLast_prefix_of_prefix {α : Type} (a b : List α) (h : a <+: b) : a.dropLast <+: b.dropLast := by
+  obtain ⟨t, rfl⟩ := h
+  by_cases ht : t = []
+  · subst ht; simp
+  · rw [List.dropLast_append_of_ne_nil ht]
+    exact (List.dropLast_prefix a).trans (List.prefix_append _ _)
+
+theorem cutIndex_spec : ∀ (fs : List Bytes) (v : Nat), v ≤ fs.flatten.length → fs ≠ [] →
+    cutIndex v fs < fs.length ∧ v ≤ (fs.take (cutIndex v fs + 1)).flatten.length := by
+  intro fs
+  induction fs with
+  | nil => intro v _ h; exact absurd rfl h
+  | cons s rest ih =>
+    intro v hv _
+    simp only [List.flatten_cons, List.length_append] at hv
+    by_cases hle : v ≤ s.length
+    · simp [cutIndex, hle]
+    · have hrest : rest ≠ [] := by
+        intro h0; subst h0; simp at hv; omega
+      obtain ⟨h1, h2⟩ := ih (v - s.length) (by omega) hrest
+      simp only [cutIndex, hle, if_false, List.length_cons]
+      refine ⟨by omega, ?_⟩
+      rw [show 1 + cutIndex (v - s.length) rest + 1 = (cutIndex (v - s.length) rest + 1) + 1 by omega,
+        List.take_succ_cons]
+      simp only [List.flatten_cons, List.length_append]
+      omega
+
+theorem readAll_records_between (crc : Bytes → UInt32) (log : List Bytes) (S X : Bytes)
+    (hsmall : ∀ p ∈ log, p.length + 8 < 2 ^ 32) (hS : S <+: frames crc log) (hX : X <+: S)
+    (hge : (frames crc (readAll crc S).1).length ≤ X.length) :
+    (readAll crc X).1 = (readAll crc S).1 := by
+  obtain ⟨m, e, hm, hread, hpf, _, hmax⟩ := readAll_prefix crc log S hsmall hS
+  obtain ⟨m', e', hm', hread', hpf', _, hmax'⟩ := readAll_prefix crc log X hsmall (hX.trans hS)
+  rw [hread] at hge
+  have h1 : m ≤ m' := hmax' m hm hge
+  have h2 : m' ≤ m := hmax m' hm' (Nat.le_trans hpf'.length_le hX.length_le)
+  have : m = m' := by omega
+  subst this
+  rw [hread, hread']
+
+/-- a recovery that dies inside CloseAndRepair leaves a disk from which recovery works as before,
+    and on which the read loop finds the same records -/
+theorem recoverPartial_spec (crc : Bytes → UInt32) (d : Disk) (log : List Bytes) (n j : Nat)
+    (h : Pre crc d log n) (hsmall : ∀ p ∈ log, p.length + 8 < 2 ^ 32) (hn : n ≤ log.length) :
+    Pre crc (recoverPartial crc j d) log n
+    ∧ (readAll crc (recoverPartial crc j d).files.flatten).1 = (readAll crc d.files.flatten).1 := by
+  obtain ⟨m, e, hm, hread, hpf, heof, hmax⟩ := readAll_prefix crc log d.files.flatten hsmall h.pre
+  have hnm : n ≤ m := hmax n hn h.dur
+  have hv : (frames crc (log.take m)).length ≤ d.files.flatten.length := hpf.length_le
+  have hdurv : (frames crc (log.take n)).length ≤ (frames crc (log.take m)).length :=
+    frames_take_mono crc log n m hnm
+  unfold recoverPartial
+  rw [if_neg h.ne]
+  simp only [hread]
+  have hrec1 : (readAll crc d.files.flatten).1 = log.take m := by rw [hread]
+  have key : Pre crc { d with files := repairPartial (frames crc (log.take m)).length j d.files } log n
+      ∧ (readAll crc (repairPartial (frames crc (log.take m)).length j d.files).flatten).1
+          = (readAll crc d.files.flatten).1 := by
+    unfold repairPartial
+    split
+    · -- only removes of trailing segments happened
+      rename_i hj
+      obtain ⟨hc1, hc2⟩ := cutIndex_spec d.files _ hv h.ne
+      have hq : cutIndex (frames crc (log.take m)).length d.files + 1 ≤ d.files.length - j := by omega
+      have hpre1 : d.files.take (cutIndex (frames crc (log.take m)).length d.files + 1)
+          <+: d.files.take (d.files.length - j) := take_prefix_take _ _ _ hq
+      have hlen := (flatten_prefix _ _ hpre1).length_le
+      refine ⟨?_, readAll_records_between crc log _ _ hsmall h.pre
+        (flatten_prefix _ _ (List.take_prefix _ _)) (by rw [hrec1]; omega)⟩
+      constructor
+      · simp only
+        intro h0
+        have := congrArg List.length h0
+        simp at this
+        omega
+      · exact (flatten_prefix _ _ (List.take_prefix _ _)).trans h.pre
+      · simp only; omega
+      · intro s hs
+        exact h.whole s ((dropLast_prefix_of_prefix _ _ (List.take_prefix _ _)).subset hs)
+    · -- the repair completed
+      refine ⟨?_, readAll_records_between crc log _ _ hsmall h.pre
+        (by rw [repairLoop_flatten _ _ hv]; exact List.take_prefix _ _)
+        (by rw [hrec1, repairLoop_flatten _ _ hv, List.length_take]; omega)⟩
+      constructor
+      · exact repairLoop_ne_nil _ _ h.ne
+      · simp only
+        rw [repairLoop_flatten _ _ hv, ← List.prefix_iff_eq_take.mp hpf]
+        obtain ⟨t, ht⟩ := List.take_prefix m log
+        refine ⟨frames crc t, ?_⟩
+        rw [← frames_append, ht]
+      · simp only
+        rw [repairLoop_flatten _ _ hv, ← List.prefix_iff_eq_take.mp hpf]
+        exact hdurv
+      · intro s hs
+        exact h.whole s ((repairLoop_dropLast_prefix _ _).subset hs)
+  cases e with
+  | eof => exact ⟨h, hrec1⟩
+  | unexpectedEOF => exact ⟨key.1, key.2.trans hrec1⟩
+  | corrupted => exact ⟨key.1, key.2.trans hrec1⟩
+
+theorem recoverPartial_pre (crc : Bytes → UInt32) (d : Disk) (log : List Bytes) (n j : Nat)
+    (h : Pre crc d log n) (hsmall : ∀ p ∈ log, p.length + 8 < 2 ^ 32) (hn : n ≤ log.length) :
+    Pre crc (recoverPartial crc j d) log n := (recoverPartial_spec crc d log n j h hsmall hn).1
+
+theorem recoverPartials_pre (crc : Bytes → UInt32) (log : List Bytes) (n : Nat)
+    (hsmall : ∀ p ∈ log, p.length + 8 < 2 ^ 32) (hn : n ≤ log.length) :
+    ∀ (js : List Nat) (d : Disk), Pre crc d log n →
+      Pre crc (js.foldl (fun d j => recoverPartial crc j d) d) log n
+      ∧ (readAll crc (js.foldl (fun d j => recoverPartial crc j d) d).files.flatten).1
+          = (readAll crc d.files.flatten).1 := by
+  intro js
+  induction js with
+  | nil => intro d h; exact ⟨h, rfl⟩
+  | cons j js ih =>
+    intro d h
+    simp only [List.foldl_cons]
+    obtain ⟨h1, h2⟩ := recoverPartial_spec crc d log n j h hsmall hn
+    obtain ⟨h3, h4⟩ := ih _ h1
+    exact ⟨h3, h4.trans h2⟩
+
+theorem recoverReopen_snd (crc : Bytes → UInt32) (cfg : Cfg) (d : Disk) (hne : d.files ≠ []) :
+    (recoverReopen crc cfg d).2 = (readAll crc d.files.flatten).1 := by
+  unfold recoverReopen recover
+  rw [if_neg hne]
+  simp only
+  generalize (readAll crc d.files.flatten).2.2 = e
+  cases e <;> rfl
+
+theorem crashAt_spec (crc : Bytes → UInt32) (w : Writer) (g : Ghost) (p : CrashPoint) (js : List Nat)
+    (h : Inv crc w g) :
+    ∃ m, g.nsynced ≤ m ∧ m ≤ g.log.length ∧ (stepOp crc w (.crashAt p js)).2 = g.log.take m
+      ∧ Inv crc (stepOp crc w (.crashAt p js)).1 { log := g.log.take m, nsynced := m }
+      ∧ (stepOp crc w (.crashAt p js)).1.cfg = w.cfg := by
+  have hp := (recoverPartials_pre crc g.log g.nsynced h.small h.nLe js _ (crashAt_pre crc w g p h)).1
+  exact recoverReopen_spec crc w.cfg _ g.log g.nsynced hp.ne hp.pre h.small hp.dur h.nLe hp.whole
+
+/-- interrupted repairs do not change what the recovery that completes returns -/
+theorem crashAt_resumable (crc : Bytes → UInt32) (w : Writer) (g : Ghost) (p : CrashPoint) (js : List Nat)
+    (h : Inv crc w g) :
+    (stepOp crc w (.crashAt p js)).2 = (stepOp crc w (.crashAt p [])).2 := by
+  have h0 := crashAt_pre crc w g p h
+  obtain ⟨hp, hrec⟩ := recoverPartials_pre crc g.log g.nsynced h.small h.nLe js _ h0
+  simp only [stepOp, List.foldl_nil]
+  rw [recoverReopen_snd crc _ _ hp.ne, recoverReopen_snd crc _ _ h0.ne, hrec]
+
+/-- every crash op: the recovery returns `log.take m` for some `m` between `nsynced` and the length -/
+theorem crashOp_spec (crc : Bytes → UInt32) (w : Writer) (g : Ghost) (op : Op) (hop : op.isCrash)
+    (h : Inv crc w g) :
+    ∃ m, g.nsynced ≤ m ∧ m ≤ g.log.length ∧ (stepOp crc w op).2 = g.log.take m
+      ∧ Inv crc (stepOp crc w op).1 { log := g.log.take m, nsynced := m } := by
+  cases op with
+  | crashRecover k =>
+    obtain ⟨m, a, b, c, d, _⟩ := crashRecover_spec crc w g k h
+    exact ⟨m, a, b, c, d⟩
+  | crashAt p js =>
+    obtain ⟨m, a, b, c, d, _⟩ := crashAt_spec crc w g p js h
+    exact ⟨m, a, b, c, d⟩
+  | write _ => exact absurd hop (by simp [Op.isCrash])
+  | sync => exact absurd hop (by simp [Op.isCrash])
+  | shift => exact absurd hop (by simp [Op.isCrash])
+  | housekeep => exact absurd hop (by simp [Op.isCrash])
+  | restart => exact absurd hop (by simp [Op.isCrash])
+
 theorem step_inv (crc : Bytes → UInt32) (w : Writer) (g : Ghost) (op : Op) (h : Inv crc w g)
     (hop : op.plain) : Inv crc (stepOp crc w op).1 (stepGhost crc w g op) := by
   cases op with
@@ -573,14 +858,14 @@ theorem step_inv (crc : Bytes → UInt32) (w : Writer) (g : Ghost) (op : Op) (h 
     obtain ⟨m, _, hm, hr, hinv, _⟩ := crashRecover_spec crc w g k h
     simp only [stepGhost, hr, List.length_take, Nat.min_eq_left hm]
     exact ⟨hinv.stream, hinv.syncedLe, hinv.durable, hinv.nLe, hinv.small, hinv.whole⟩
+  | crashAt p js =>
+    obtain ⟨m, _, hm, hr, hinv, _⟩ := crashAt_spec crc w g p js h
+    simp only [stepGhost, hr, List.length_take, Nat.min_eq_left hm]
+    exact ⟨hinv.stream, hinv.syncedLe, hinv.durable, hinv.nLe, hinv.small, hinv.whole⟩
   | restart =>
     obtain ⟨hr, hinv, _⟩ := restart_spec crc w g h
     simp only [stepGhost, hr]
     exact ⟨hinv.stream, hinv.syncedLe, hinv.durable, hinv.nLe, hinv.small, hinv.whole⟩
-
-theorem take_prefix_take {α : Type} (l : List α) (a b : Nat) (h : a ≤ b) : l.take a <+: l.take b := by
-  have : l.take a = (l.take b).take a := by rw [List.take_take, Nat.min_eq_left h]
-  rw [this]; exact List.take_prefix _ _
 
 theorem step_retired_le (crc : Bytes → UInt32) (w : Writer) (g : Ghost) (op : Op) :
     g.retired ≤ (stepGhost crc w g op).retired := by
@@ -610,6 +895,10 @@ theorem step_durable_mono (crc : Bytes → UInt32) (w : Writer) (g : Ghost) (op 
     obtain ⟨m, hnm, hm, hr, _, _⟩ := crashRecover_spec crc w g k h
     simp only [stepGhost, hr, Ghost.durable, List.take_length, Nat.sub_self, List.drop_zero]
     exact take_prefix_take _ _ _ hnm
+  | crashAt p js =>
+    obtain ⟨m, hnm, hm, hr, _, _⟩ := crashAt_spec crc w g p js h
+    simp only [stepGhost, hr, Ghost.durable, List.take_length, Nat.sub_self, List.drop_zero]
+    exact take_prefix_take _ _ _ hnm
   | restart =>
     obtain ⟨hr, _, _⟩ := restart_spec crc w g h
     simp only [stepGhost, hr, Ghost.durable, List.take_length, Nat.sub_self, List.drop_zero]
@@ -631,6 +920,10 @@ theorem step_log_sub (crc : Bytes → UInt32) (w : Writer) (g : Ghost) (op : Op)
     exact .inl (List.mem_of_mem_drop hx)
   | crashRecover k =>
     obtain ⟨m, _, _, hr, _, _⟩ := crashRecover_spec crc w g k h
+    simp only [stepGhost, hr] at hx
+    exact .inl (List.mem_of_mem_take hx)
+  | crashAt p js =>
+    obtain ⟨m, _, _, hr, _, _⟩ := crashAt_spec crc w g p js h
     simp only [stepGhost, hr] at hx
     exact .inl (List.mem_of_mem_take hx)
   | restart =>
@@ -786,6 +1079,23 @@ theorem recoverReopen_flags (crc : Bytes → UInt32) (cfg : Cfg) (d : Disk) :
     (recoverReopen crc cfg d).1.cfg = cfg ∧ (recoverReopen crc cfg d).1.tailUnlinked = false := by
   unfold recoverReopen; split <;> exact openWriter_flags _ _
 
+theorem recoverReopen_buf (crc : Bytes → UInt32) (cfg : Cfg) (d : Disk) :
+    (recoverReopen crc cfg d).1.buf = [] := by
+  unfold recoverReopen openWriter
+  split <;> (simp only; split <;> rfl)
+
+theorem crashOp_buf (crc : Bytes → UInt32) (w : Writer) (op : Op) (hop : op.isCrash) :
+    (stepOp crc w op).1.buf = [] := by
+  cases op <;> first | exact recoverReopen_buf _ _ _ | exact absurd hop (by simp [Op.isCrash])
+
+theorem stepGhost_crash (crc : Bytes → UInt32) (w : Writer) (g : Ghost) (op : Op) (hop : op.isCrash) :
+    stepGhost crc w g op
+      = { g with log := (stepOp crc w op).2, nsynced := (stepOp crc w op).2.length } := by
+  cases op <;> first | rfl | exact absurd hop (by simp [Op.isCrash])
+
+theorem isCrash_plain (op : Op) (hop : op.isCrash) : op.plain := by
+  cases op <;> simp_all [Op.plain, Op.isCrash]
+
 theorem step_flags (crc : Bytes → UInt32) (cfg : Cfg) (w : Writer) (op : Op)
     (hcfg : cfg.fileLimit ≤ cfg.totalLimit) (h : w.cfg = cfg ∧ w.tailUnlinked = false) :
     (stepOp crc w op).1.cfg = cfg ∧ (stepOp crc w op).1.tailUnlinked = false := by
@@ -797,6 +1107,7 @@ theorem step_flags (crc : Bytes → UInt32) (cfg : Cfg) (w : Writer) (op : Op)
     refine ⟨by simp only [stepOp]; rw [housekeep_cfg]; exact h.1, ?_⟩
     exact housekeep_keeps_tail w (by rw [h.1]; exact hcfg) h.2
   | crashRecover k => simp only [stepOp]; rw [h.1]; exact recoverReopen_flags _ _ _
+  | crashAt p js => simp only [stepOp]; rw [h.1]; exact recoverReopen_flags _ _ _
   | restart => simp only [stepOp]; rw [h.1]; exact recoverReopen_flags _ _ _
 
 theorem run_flags (crc : Bytes → UInt32) (cfg : Cfg) (hcfg : cfg.fileLimit ≤ cfg.totalLimit) :
